@@ -190,6 +190,36 @@ def fsevents_predicates(ctx, P, F) -> None:
             )
     if not npass or not nblock:
         raise AnalysisError("_is_recursive_event: both outcomes must exist")
+    # ---- ... and the root those tests compare with is the canonical spelling of the watch path: FSEvents reports symlink-free
+    # paths whatever spelling the stream was opened with, so an unresolved root (/tmp/x for /private/tmp/x) equals no parent
+    ini = P.find_method("FSEventsEmitter", "__init__")
+    if ini is None:
+        raise AnalysisError("anchor vanished: FSEventsEmitter.__init__")
+    stored = {}
+    for p in Enumerator(Cfg(P)).run(ini, selfcls="FSEventsEmitter"):
+        if p.outcome[0] == "raise":
+            continue
+        for e in p.evs:
+            if e.kind == "store" and e.extra.get("recv") == "self" and "self." + e.extra.get("attr", "") == ROOT:
+                stored.setdefault(e.extra.get("value") or "", e.line)
+    if not stored:
+        raise AnalysisError(f"FSEventsEmitter.__init__ does not store {ROOT}")
+    for v, line in sorted(stored.items()):
+        try:
+            t = ast.parse(v, mode="eval").body
+        except SyntaxError:
+            t = None
+        chain, leaf = [], t
+        while isinstance(leaf, ast.Call) and len(leaf.args) == 1 and not leaf.keywords:
+            chain.append(dotted(leaf.func) or ast.unparse(leaf.func))
+            leaf = leaf.args[0]
+        ctx.check(
+            "os.path.realpath" in chain and leaf is not None and ast.unparse(leaf) in ("self.watch.path", "self._watch.path"),
+            RP,
+            f"the root the non-recursive test compares with is realpath(watch path) [{v[:60]}]",
+            f"on a path of FSEventsEmitter.__init__ the root is stored as `{v[:100]}`, not resolved through os.path.realpath: FSEvents reports canonical paths, so for a root reached through a symbolic link no event's directory equals the stored root and a non-recursive watch drops every event",
+            f"{ini.module.relpath}:{line}",
+        )
 
     # ---- _is_historic_created_event
     hf = F.methods.get("_is_historic_created_event")
@@ -1131,6 +1161,8 @@ VARIANTS = [
     dict(name="B Windows reads only without a handle", expect="fire", rule="C20/native-wiring", edits=[("observers/read_directory_changes.py", "        if not self._whandle:\n            return []", "        if self._whandle:\n            return []")]),
     dict(name="B Windows records never fetched", expect="fire", rule="C20/", edits=[("observers/read_directory_changes.py", "        winapi_events = self._read_events()\n", "        winapi_events = []\n")]),
     dict(name="E Windows records iterated directly", expect="silent", edits=[("observers/read_directory_changes.py", "        winapi_events = self._read_events()\n        with self._lock:\n            last_renamed_src_path = \"\"\n            for winapi_event in winapi_events:", "        with self._lock:\n            last_renamed_src_path = \"\"\n            for winapi_event in self._read_events():")]),
+    dict(name="B FSEvents root resolved only for symlink-following watches", expect="fire", rule="C20/fsevents-predicates", edits=[(FS, "        self._absolute_watch_path = os.path.realpath(os.path.abspath(os.path.expanduser(self.watch.path)))\n", "        watch_path = os.path.abspath(os.path.expanduser(self.watch.path))\n        self._absolute_watch_path = os.path.realpath(watch_path) if self.watch.follow_symlink else watch_path\n")]),
+    dict(name="E FSEvents root computed through a local", expect="silent", edits=[(FS, "        self._absolute_watch_path = os.path.realpath(os.path.abspath(os.path.expanduser(self.watch.path)))\n", "        expanded = os.path.expanduser(self.watch.path)\n        self._absolute_watch_path = os.path.realpath(os.path.abspath(expanded))\n")]),
     dict(name="B FSEvents absolute watch path never computed", expect="fire", rule="C20/native-wiring", edits=[(FS, "        self._absolute_watch_path = os.path.realpath(os.path.abspath(os.path.expanduser(self.watch.path)))\n", "")]),
     dict(name="B FSEvents start-up snapshot only when history is wanted", expect="fire", rule="C20/native-wiring", edits=[(FS, "        if self.suppress_history:\n            watch_path", "        if not self.suppress_history:\n            watch_path")]),
     dict(name="B FSEvents start-up snapshot keyed by bytes", expect="fire", rule="C20/native-wiring", edits=[(FS, "watch_path = os.fsdecode(self.watch.path) if isinstance(self.watch.path, bytes) else self.watch.path", "watch_path = os.fsdecode(self.watch.path) if not isinstance(self.watch.path, bytes) else self.watch.path")]),
